@@ -17,7 +17,7 @@ to_bytes_with_padding, bytestr, slice and == in both directions. Non-trivial = a
         "sizes: values up to 96 bits (quick) / 640 bits (thorough)",
     ],
     max_len: 400,
-    quick_cases: 24_000,
+    quick_cases: 100_000,
     thorough_cases: 1_600_000,
     case,
     systematic: None,
